@@ -312,7 +312,9 @@ def random_doc(rng, rich=True):
     if nreg:
       regions[reg].pop("b", None)
       regions[reg].pop("e", None)
-    t = Fraction(rng.choice([0, 3590, 35990, 359990, 359990, 2000000, 360000 * 3 - 10]) + rng.randint(0, 20))   # (milliseconds stay below 2^31)
+    # (milliseconds stay below 2^31); half of the files begin a few seconds before the hour count gains a digit
+    t = Fraction(rng.choice([0, 3590, 35990, 359990, 2000000, 360000 * 3 - 10]) + rng.randint(0, 20)) if rng.random() < 0.5 else \
+        Fraction(rng.choice([36000, 360000, 360000]) - rng.randint(1, 8))
     many = []
     for k in range(rng.randint(25, 70)):
       d = Fraction(rng.randint(1, 4000), 1000)
